@@ -28,10 +28,11 @@ class Unsupported(AnalysisError):
 class LiftRaise(Exception):
     """The lifted path ends in `raise`."""
 
-    def __init__(self, what, node=None):
+    def __init__(self, what, node=None, mod=None):
         super().__init__(what)
         self.what = what
         self.node = node
+        self.file = getattr(mod, "relpath", None)
 
 
 class _Return(Exception):
@@ -175,6 +176,8 @@ class Interp:
         try:
             env = Env(clo.env)
             self._bind_params(node, env, args, kwargs, clo)
+            if clo.cls is not None and args:
+                env.set("__super_ctx__", (clo.cls, args[0]))
             if isinstance(node, ast.Lambda):
                 return self.eval(node.body, env, clo.module)
             self.trace.append(clo.name)
@@ -272,7 +275,7 @@ class Interp:
                 except _Continue:
                     continue
         elif isinstance(st, ast.Raise):
-            raise LiftRaise(norm(st.exc) if st.exc else "raise", st)
+            raise LiftRaise(norm(st.exc) if st.exc else "raise", st, mod)
         elif isinstance(st, ast.Assert):
             try:
                 ok = self.truth(self.eval(st.test, env, mod), st.test)
@@ -532,6 +535,20 @@ class Interp:
             if attr in obj.tags:
                 return obj.tags[attr]
             raise Unsupported(f"attribute {attr} of a UFL value ({norm(node)})")
+        if isinstance(obj, Obj) and obj.kind == "super":
+            cur, slf = obj.attrs["_cls"], obj.attrs["_self"]
+            k0 = slf.attrs.get("__class__") if isinstance(slf, Obj) else None
+            if not isinstance(k0, ClassInfo):
+                raise Unsupported("super() on an object without a modelled class")
+            mro = k0.mro()
+            if cur not in mro:
+                raise Unsupported("super(): class not in MRO of self")
+            for k in mro[mro.index(cur) + 1 :]:
+                if attr in k.methods:
+                    return BoundMethod(self, k.methods[attr], slf)
+            if attr == "__init__":
+                return lambda *a, **kw: None
+            raise Unsupported(f"super().{attr} not found")
         if isinstance(obj, Obj):
             if attr in obj.attrs:
                 return obj.attrs[attr]
@@ -761,6 +778,11 @@ class Interp:
                 kwargs.update(self.eval(k.value, env, mod))
             else:
                 kwargs[k.arg] = self.eval(k.value, env, mod)
+        if isinstance(e.func, ast.Name) and e.func.id == "super" and not args:
+            found, ctxv = env.lookup("__super_ctx__")
+            if not found:
+                raise Unsupported("super() outside a method")
+            return Obj("super", _cls=ctxv[0], _self=ctxv[1])
         if isinstance(e.func, ast.Attribute):
             recv = self.eval(e.func.value, env, mod)
             if self.method_hook is not None:
